@@ -173,4 +173,353 @@ theorem takeOf_le_of_rate_lt (s : St) (tb : Nat) (hr : s.rate < E18) : takeOf s 
     · exact Nat.zero_le _
   · exact Nat.zero_le _
 
+/-! ### `CollectFees` / `AggregateFees` sent directly -/
+
+theorem collectFees_any_sender (s : St) (a b : Nat) (f : FeesFor) : collectFees s a f = collectFees s b f := by
+  cases f <;> rfl
+
+theorem aggregateFees_any_sender (cfg : Cfg) (s : St) (a b : Nat) (f : FeesFor) (router : Nat → Nat → Nat → Nat)
+    (acc : Nat → Nat → Nat) : aggregateFees cfg s a f router acc = aggregateFees cfg s b f router acc := rfl
+
+theorem add_apply (b : Nat → Nat) (x u i : Nat) : add b x u i = b i + (if x = i then u else 0) := by
+  unfold add
+  by_cases h : x = i
+  · subst h; simp
+  · have h' : ¬ i = x := fun e => h e.symm
+    simp [h, h']
+
+theorem sent_add_kept (r : Bool) (p : Nat) : sent r p + kept r p = p := by
+  unfold sent kept
+  split <;> omega
+
+theorem poolsPending_after (i : Nat) : ∀ ps : List Pool,
+    poolsPending i (poolsAfter ps) + poolsCollected i ps = poolsPending i ps := by
+  intro ps
+  induction ps with
+  | nil => rfl
+  | cons p ps ih =>
+    have ih' : poolsPending i (List.map (fun p => { p with pa := kept p.reg p.pa, pb := kept p.reg p.pb }) ps)
+        + poolsCollected i ps = poolsPending i ps := ih
+    simp only [poolsAfter, List.map, poolsPending, poolsCollected]
+    have h1 := sent_add_kept p.reg p.pa
+    have h2 := sent_add_kept p.reg p.pb
+    by_cases ha : p.a = i <;> by_cases hb : p.b = i <;> simp only [ha, hb, if_true, if_false] <;> omega
+
+theorem vaultsCollected_after (i : Nat) : ∀ vs : List Vault, vaultsCollected i (vaultsAfter vs) = 0 := by
+  intro vs
+  induction vs with
+  | nil => rfl
+  | cons v vs ih =>
+    have ih' : vaultsCollected i (List.map (fun v => { v with pend := 0 }) vs) = 0 := ih
+    simp only [vaultsAfter, List.map, vaultsCollected]
+    rw [ih']
+    split <;> rfl
+
+theorem vaultsCollected_set (i : Nat) : ∀ (vs : List Vault) (k : Nat) (v : Vault), vs[k]? = some v →
+    vaultsCollected i (vs.set k { v with pend := 0 }) + (if v.asset = i then v.pend else 0) =
+      vaultsCollected i vs := by
+  intro vs
+  induction vs with
+  | nil => intro k v h; simp at h
+  | cons w ws ih =>
+    intro k v h
+    cases k with
+    | zero =>
+      simp only [List.getElem?_cons_zero, Option.some.injEq] at h
+      subst h
+      simp only [List.set, vaultsCollected]
+      split <;> omega
+    | succ k =>
+      simp only [List.getElem?_cons_succ] at h
+      have := ih k v h
+      simp only [List.set, vaultsCollected]
+      omega
+
+theorem poolsPending_set (i : Nat) : ∀ (ps : List Pool) (k : Nat) (p : Pool), ps[k]? = some p →
+    poolsPending i (ps.set k { p with pa := kept true p.pa, pb := kept true p.pb }) +
+      ((if p.a = i then sent true p.pa else 0) + (if p.b = i then sent true p.pb else 0)) =
+      poolsPending i ps := by
+  intro ps
+  induction ps with
+  | nil => intro k p h; simp at h
+  | cons q qs ih =>
+    intro k p h
+    cases k with
+    | zero =>
+      simp only [List.getElem?_cons_zero, Option.some.injEq] at h
+      subst h
+      simp only [List.set, poolsPending]
+      have h1 := sent_add_kept true q.pa
+      have h2 := sent_add_kept true q.pb
+      by_cases ha : q.a = i <;> by_cases hb : q.b = i <;> simp only [ha, hb, if_true, if_false] <;> omega
+    | succ k =>
+      simp only [List.getElem?_cons_succ] at h
+      have := ih k p h
+      simp only [List.set, poolsPending]
+      omega
+
+/-- a direct `CollectFees`: the collector's balance of every asset grows by exactly what the named
+    contracts send, and that is exactly what leaves their pending ledgers -/
+theorem collectFees_spec {s s' : St} {sender : Nat} {f : FeesFor} (h : collectFees s sender f = .ok s') (i : Nat) :
+    s'.bal i = s.bal i + directCollected s f i ∧
+    vaultsCollected i s'.vaults + poolsPending i s'.pools + directCollected s f i =
+      vaultsCollected i s.vaults + poolsPending i s.pools := by
+  cases f with
+  | vaultFactory =>
+    simp only [collectFees] at h
+    injection h with h; subst h
+    simp only [directCollected]
+    refine ⟨collectVaults_apply i _ _, ?_⟩
+    rw [vaultsCollected_after]; omega
+  | poolFactory =>
+    simp only [collectFees] at h
+    injection h with h; subst h
+    simp only [directCollected]
+    refine ⟨collectPools_apply i _ _, ?_⟩
+    have := poolsPending_after i s.pools
+    omega
+  | wrongFactory => simp only [collectFees] at h; cases h
+  | onePool k =>
+    simp only [collectFees] at h
+    cases hk : s.pools[k]? with
+    | none => rw [hk] at h; cases h
+    | some p =>
+      rw [hk] at h; simp only at h
+      injection h with h; subst h
+      simp only [directCollected, hk]
+      refine ⟨?_, ?_⟩
+      · rw [add_apply, add_apply]; omega
+      · have := poolsPending_set i s.pools k p hk
+        omega
+  | oneVault k =>
+    simp only [collectFees] at h
+    cases hk : s.vaults[k]? with
+    | none => rw [hk] at h; cases h
+    | some v =>
+      rw [hk] at h; simp only at h
+      injection h with h; subst h
+      simp only [directCollected, hk]
+      refine ⟨add_apply _ _ _ _, ?_⟩
+      have := vaultsCollected_set i s.vaults k v hk
+      omega
+
+/-- a direct `CollectFees` touches nothing but the collector's balances and the pending ledgers -/
+theorem collectFees_rest {s s' : St} {sender : Nat} {f : FeesFor} (h : collectFees s sender f = .ok s') :
+    s'.dao = s.dao ∧ s'.trh = s.trh ∧ s'.rate = s.rate ∧ s'.active = s.active ∧ s'.daoSet = s.daoSet ∧
+    s'.routes = s.routes := by
+  cases f with
+  | vaultFactory => simp only [collectFees] at h; injection h with h; subst h; exact ⟨rfl, rfl, rfl, rfl, rfl, rfl⟩
+  | poolFactory => simp only [collectFees] at h; injection h with h; subst h; exact ⟨rfl, rfl, rfl, rfl, rfl, rfl⟩
+  | wrongFactory => simp only [collectFees] at h; cases h
+  | onePool k =>
+    simp only [collectFees] at h
+    cases hk : s.pools[k]? with
+    | none => rw [hk] at h; cases h
+    | some p => rw [hk] at h; simp only at h; injection h with h; subst h; exact ⟨rfl, rfl, rfl, rfl, rfl, rfl⟩
+  | oneVault k =>
+    simp only [collectFees] at h
+    cases hk : s.vaults[k]? with
+    | none => rw [hk] at h; cases h
+    | some v => rw [hk] at h; simp only at h; injection h with h; subst h; exact ⟨rfl, rfl, rfl, rfl, rfl, rfl⟩
+
+theorem aggregateFees_spec {cfg : Cfg} {s s' : St} {sender : Nat} {f : FeesFor} {router : Nat → Nat → Nat → Nat}
+    {acc : Nat → Nat → Nat} {inn : Nat} {sw : List (Nat × Nat × Nat)}
+    (h : aggregateFees cfg s sender f router acc = .ok (s', inn, sw)) :
+    ∃ cands b, aggCands cfg s f = some cands ∧ (∀ c ∈ cands, c ≠ cfg.dist) ∧
+      aggregate cfg.dist router 0 s.pools s.routes cands s.bal = .ok (b, inn, sw) ∧
+      s' = { s with bal := b, pools := addAcc acc 0 s.pools } := by
+  unfold aggregateFees at h
+  cases hc : aggCands cfg s f with
+  | none => rw [hc] at h; cases h
+  | some cands =>
+    rw [hc] at h; simp only at h
+    have hne : ∀ c ∈ cands, c ≠ cfg.dist := by
+      cases f with
+      | vaultFactory =>
+        simp only [aggCands, Option.some.injEq] at hc; subst hc; exact vaultAssets_ne cfg s.vaults
+      | poolFactory =>
+        simp only [aggCands, Option.some.injEq] at hc; subst hc; exact poolAssets_ne cfg s.pools
+      | wrongFactory => simp [aggCands] at hc
+      | onePool k => simp [aggCands] at hc
+      | oneVault k => simp [aggCands] at hc
+    cases ha : aggregate cfg.dist router 0 s.pools s.routes cands s.bal with
+    | err => rw [ha] at h; cases h
+    | panic => rw [ha] at h; cases h
+    | ok pr =>
+      obtain ⟨b, inn1, sw1⟩ := pr
+      rw [ha] at h; simp only at h
+      injection h with h; injection h with h1 h2; injection h2 with h2 h3
+      subst h2; subst h3
+      exact ⟨cands, b, rfl, hne, ha, h1.symm⟩
+
 end WW.Collector
+
+/-! ### the joint machine projects onto the distributor's ledger machine -/
+namespace WW.Feeflow
+open WW
+
+theorem ofCode_ok {r : Nat} {s s' : St} (h : ofCode r s = .ok s') : s' = s := by
+  unfold ofCode at h
+  split at h
+  · injection h with h; exact h.symm
+  · split at h <;> cases h
+
+/-- every successful operation of the joint machine — including the directly sent `CollectFees` /
+    `AggregateFees` and everything that happens on pairs, vaults, the router and the lair — either
+    leaves the distributor's ledger state untouched or is one operation of `Distributor.step` -/
+theorem step_projects {cfg : Cfg} {s s' : St} {op : Op} (h : step cfg s op = .ok s') :
+    s'.d = s.d ∨ ∃ dop, Distributor.step cfg.d s.d dop = .ok s'.d := by
+  cases op with
+  | newEpoch now router acc =>
+    right
+    simp only [step] at h
+    cases hn : newEpoch cfg s now router acc with
+    | err => rw [hn] at h; cases h
+    | panic => rw [hn] at h; cases h
+    | ok pr =>
+      obtain ⟨s1, o⟩ := pr
+      rw [hn] at h; simp only at h
+      injection h with h; subst h
+      unfold newEpoch at hn
+      cases hne : Distributor.nextEpoch cfg.d s.d now with
+      | err => rw [hne] at hn; cases hn
+      | panic => rw [hne] at hn; cases hn
+      | ok pr =>
+        obtain ⟨id, start⟩ := pr
+        rw [hne] at hn; simp only at hn
+        cases hf : Collector.forwardFees cfg.c s.c cfg.c.distributor id router acc with
+        | err => rw [hf] at hn; cases hn
+        | panic => rw [hf] at hn; cases hn
+        | ok o1 =>
+          rw [hf] at hn; simp only at hn
+          cases hr : Distributor.receiveEpoch s.d id start o1.inflow with
+          | err => rw [hr] at hn; cases hn
+          | panic => rw [hr] at hn; cases hn
+          | ok d' =>
+            rw [hr] at hn; simp only at hn
+            injection hn with hn; injection hn with h1 h2
+            subst h1
+            refine ⟨.newEpoch now o1.inflow, ?_⟩
+            simp only [Distributor.step, Distributor.newEpoch, hne, hr]
+  | claim u ans =>
+    right
+    simp only [step] at h
+    cases hc : Distributor.claim s.d u (s.view u) ans with
+    | err => rw [hc] at h; cases h
+    | panic => rw [hc] at h; cases h
+    | ok pr =>
+      obtain ⟨d', paid⟩ := pr
+      rw [hc] at h; simp only at h
+      injection h with h; subst h
+      exact ⟨.claim u (s.view u) ans, by simp only [Distributor.step, hc]⟩
+  | bond u res view =>
+    left
+    simp only [step] at h
+    split at h
+    · cases h
+    · rw [ofCode_ok h]
+  | grace sender g =>
+    right
+    simp only [step] at h
+    cases hg : Distributor.updateGrace cfg.d s.d sender g with
+    | err => rw [hg] at h; cases h
+    | panic => rw [hg] at h; cases h
+    | ok d' =>
+      rw [hg] at h; simp only at h
+      injection h with h; subst h
+      exact ⟨.grace sender g, by simp only [Distributor.step, hg]⟩
+  | colcfg sender rate setDao active =>
+    left
+    simp only [step] at h
+    cases hc : Collector.updateConfig cfg.c s.c sender rate setDao active with
+    | err => rw [hc] at h; cases h
+    | panic => rw [hc] at h; cases h
+    | ok c' => rw [hc] at h; simp only at h; injection h with h; subst h; rfl
+  | fwd sender =>
+    left
+    simp only [step] at h
+    cases hc : Collector.forwardFees cfg.c s.c sender 0 (fun _ _ _ => 0) (fun _ _ => 0) with
+    | err => rw [hc] at h; cases h
+    | panic => rw [hc] at h; cases h
+    | ok o => rw [hc] at h; simp only at h; injection h with h; subst h; rfl
+  | swap res pool side fee => left; simp only [step] at h; rw [ofCode_ok h]
+  | loan res vault fee => left; simp only [step] at h; rw [ofCode_ok h]
+  | gift toCol asset amount =>
+    simp only [step] at h
+    split at h
+    · left; injection h with h; subst h; rfl
+    · split at h
+      · right; injection h with h; subst h
+        exact ⟨.gift amount, rfl⟩
+      · left; injection h with h; subst h; rfl
+  | addRoute sender asset hops =>
+    left
+    simp only [step] at h
+    split at h
+    · cases h
+    · split at h
+      · injection h with h; subst h; rfl
+      · cases h
+  | rmRoute sender asset =>
+    left
+    simp only [step] at h
+    split at h
+    · cases h
+    · split at h
+      · cases h
+      · injection h with h; subst h; rfl
+  | unreg sender pool =>
+    left
+    simp only [step] at h
+    split at h
+    · cases h
+    · split at h
+      · split at h
+        · injection h with h; subst h; rfl
+        · cases h
+      · cases h
+  | toggle sender pool on =>
+    left
+    simp only [step] at h
+    split at h
+    · cases h
+    · injection h with h; subst h; rfl
+  | collect sender f =>
+    left
+    simp only [step] at h
+    cases hc : Collector.collectFees s.c sender f with
+    | err => rw [hc] at h; cases h
+    | panic => rw [hc] at h; cases h
+    | ok c' => rw [hc] at h; simp only at h; injection h with h; subst h; rfl
+  | aggregate sender f router acc =>
+    left
+    simp only [step] at h
+    cases hc : Collector.aggregateFees cfg.c s.c sender f router acc with
+    | err => rw [hc] at h; cases h
+    | panic => rw [hc] at h; cases h
+    | ok pr =>
+      obtain ⟨c', inn, sw⟩ := pr
+      rw [hc] at h; simp only at h; injection h with h; subst h; rfl
+
+/-- the distributor component of every history of the joint machine is reached by a history of the
+    distributor's own machine (the one the C09 theorems quantify over) -/
+theorem reach_projects (cfg : Cfg) : ∀ (ops : List Op) (s : St),
+    ∃ dops, (reach cfg s ops).d = Distributor.reach cfg.d s.d dops := by
+  intro ops
+  induction ops with
+  | nil => intro s; exact ⟨[], rfl⟩
+  | cons op ops ih =>
+    intro s
+    cases hs : step cfg s op with
+    | err => simp only [reach, hs]; exact ih s
+    | panic => simp only [reach, hs]; exact ih s
+    | ok s' =>
+      simp only [reach, hs]
+      obtain ⟨dops, hd⟩ := ih s'
+      cases step_projects hs with
+      | inl same => exact ⟨dops, by rw [hd, same]⟩
+      | inr hstep =>
+        obtain ⟨dop, hdop⟩ := hstep
+        exact ⟨dop :: dops, by rw [hd]; simp only [Distributor.reach, hdop]⟩
+
+end WW.Feeflow
